@@ -123,7 +123,7 @@ func c06scenarios(probe string) []c06scn {
 		cfg["all"] = true
 		cfg["filename"] = "{{.StructName | firstLower}}_{{.InterfaceName | lower}}_gen_test.go"
 		cfg["dir"] = "{{.InterfaceDir}}/{{.StructName | trimPrefix \"Mock\"}}"
-		cfg["pkgname"] = "{{.StructName | firstLower}}"
+		cfg["pkgname"] = "litpkg" // an unchanged literal among values that still change
 		cfg["packages"] = core.M{P("a"): core.M{}, P("b"): core.M{"config": core.M{"structname": "{{.Mock}}{{.InterfaceName}}X"}, "interfaces": core.M{"B1": core.M{"config": core.M{"structname": "Lit"}}}}}
 		out = append(out, c06scn{"templated values referring to each other", map[string]string{"a/a.go": goIface("a", "A1", "aLow"), "b/b.go": goIface("b", "B1", "B2")}, cfg})
 	}
